@@ -31,6 +31,14 @@ impl BlockUnclesVerifier {
                 return StatusCode::BlockUnclesAreUnmatchedWithPendingCompactBlock
                     .with_context(format!("Expected({expected_id}) != actual({hash})"));
             }
+            // The block commits to the uncle through the uncle's header hash only; it is the
+            // uncle's header that commits to the uncle's proposals. An uncle with other
+            // proposals would rebuild an invalid block which has the hash of a valid one.
+            if uncle.proposals_hash() != uncle.calc_proposals_hash() {
+                return StatusCode::BlockUnclesAreUnmatchedWithPendingCompactBlock.with_context(
+                    format!("the proposals of uncle {hash} are unmatched with its header"),
+                );
+            }
         }
 
         Status::ok()
